@@ -1253,6 +1253,10 @@ func SelectExpr(query *Query, current Map, expr *sqlparser.SelectExprs, opts ...
 		case *sqlparser.StarExpr:
 			{
 				for key, value := range current {
+					// a lazily evaluated CTE stored next to the document's tables is not a column
+					if _, isCte := value.(CteEvaluation); isCte {
+						continue
+					}
 					query.postProcessors = append(query.postProcessors, func() error {
 						delete(data, "<-")
 						return nil
